@@ -95,8 +95,9 @@ Inductive spelled (s : schema) : ity -> json -> value -> Prop :=
 | SP_int nn n z txt lc :
     alookup n s = Some (TDScalar KInt) -> parse_int_text txt = Some z -> in_int32 z = true ->
     spelled s (INamed nn n) (JInt z) (VInt txt lc)
-| SP_float nn n r txt d lc :
+| SP_float nn n r txt d d' lc :
     alookup n s = Some (TDScalar KFloat) -> dec_of_text txt = Some d -> float_text d = r ->
+    dec_of_text r = Some d' ->               (* a finite number *)
     spelled s (INamed nn n) (JFloat r) (VFloat txt lc)
 | SP_float_int nn n z txt lc :
     alookup n s = Some (TDScalar KFloat) -> dec_of_text txt = Some (dec_of_Z z) ->
